@@ -422,7 +422,12 @@ class Dataset(AbstractDataset, dict, OpMixin, GetSetDelAttrMixin):
                 # no dimension to index: left unchanged (take would return a bare scalar, without the metadata)
                 data[nm] = self[nm]
                 continue
-            data[nm] = self[nm].take(indices={dim:dict_indices[dim] for dim in self[nm].dims}, indexing='position')
+            val = self[nm].take(indices={dim:dict_indices[dim] for dim in self[nm].dims}, indexing='position')
+            if not isinstance(val, DimArray):
+                # every dimension collapsed: a scalar, kept in the dataset as a 0-d variable with the variable's metadata
+                val = self._constructor(val)
+                val.attrs.update(self[nm].attrs)
+            data[nm] = val
         data.attrs.update(self.attrs) # dataset's metadata
         return data
 
@@ -441,6 +446,10 @@ class Dataset(AbstractDataset, dict, OpMixin, GetSetDelAttrMixin):
                 continue
             #d[k] = self[k].apply(func, *args, **kwargs)
             d[k] = getattr(self[k], funcname)(*args, **kwargs)
+            if not isinstance(d[k], DimArray):
+                # reduced to a scalar: kept in the dataset as a 0-d variable with the variable's metadata
+                d[k] = self._constructor(d[k])
+                d[k].attrs.update(self[k].attrs)
 
         return Dataset(d)
 
